@@ -143,6 +143,15 @@ var plrmLoopCases = []struct{ prog, want string }{
 	{"9223372036854775807 -9223372036854775808 -9223372036854775808 {} for", "9223372036854775807 -1"},
 	{"4 {7} repeat", "7 7 7 7"}, {"0 {7} repeat", ""}, {"[1 2 3] {10 mul} forall", "10 20 30"}, {"(AB) {} forall", "65 66"}, {"<C3A9> {} forall", "195 169"}, {"<80FF41> {} forall", "128 255 65"}, {"0 {1 add dup 3 eq {exit} if} loop", "3"},
 	{"1 1 3 {2 {dup exit} repeat} for", "1 1 2 2 3 3"},
+	// bind: operator names are replaced whenever bind is applied, by what they stand for at that moment; other names stay
+	{"/p {1 2 foo} def /p load bind pop /foo /add load def /p load bind pop /foo /sub load def p", "3"},
+	{"/p {{1 2 foo} exec} def /p load bind pop /foo /add load def /p load bind pop /foo /sub load def p", "3"},
+	{"/p {1 2 foo} def /p load bind pop /foo /add load def /foo /sub load def p", "-1"},
+	{"/p {5 3 q} def /q {add} def /p load bind pop /q /sub load def /p load bind pop /q {mul} def p", "2"},
+	{"/p {5 3 add} def userdict /add {sub} put /p load bind pop p userdict /add /mul load put /p load bind pop p", "2 15"},
+	// forall over a dictionary hands the procedure the value each key has when it is visited (keys in sorted order)
+	{"/d 3 dict def d begin /a 1 def /b 2 def /c 3 def d {exch pop /b 20 def} forall end", "1 20 3"},
+	{"/d << /a 1 /b 2 /c 3 >> def d {exch pop d /c 30 put} forall", "1 2 30"}, {"/d << /a 1 /b 2 /c 3 >> def d {exch pop d /a 10 put} forall d /a get", "1 2 3 10"},
 	// PLRM 8.2 `for`: real operands (its own example: 3 -.5 1 {} for)
 	{"0 0.5 1 {} for", "0 0.5 1"}, {"3 -.5 1 {} for", "3 2.5 2 1.5 1"}, {"1 1 2.5 {} for", "1 2"},
 }
@@ -370,6 +379,39 @@ func suiteBudget(o *suiteOut, r *rng, tier string, n int) {
 	}
 	for _, prog := range []string{"", "%", "%!", "%!\n", "%%!", " %!"} {
 		p.run(1000, true, prog)
+	}
+	// a well-formed file behind something a lenient reader might skip (byte order marks, white space, Ctrl-D, a printer
+	// job header, a further comment sign): it does not begin with %!, so it is rejected
+	var junk []string
+	for b := 0; b < 256; b++ {
+		junk = append(junk, string([]byte{byte(b)}))
+	}
+	junk = append(junk, "\xEF\xBB\xBF", "\xFE\xFF", "\xFF\xFE", "\xFF\xFE\x00\x00", "\x00\x00\xFE\xFF", "\x1b%-12345X", "\x1b%-12345X@PJL\n", "\r\n", "\n\n", "  ", "\t ", "\x00\x00",
+		"%\n", "% \n", "%%\n", "()", "\x04\x04", "\xEF\xBB", "\xEF\xBB\xBF\xEF\xBB\xBF", "\xEF\xBB\xBF ", "\xC2\xA0", "\x80\x01", "%!"[:1]+" ")
+	for i := 0; i < 300; i++ {
+		b := make([]byte, r.rangeInt(2, 5))
+		for j := range b {
+			b[j] = byte(r.intn(256))
+		}
+		if b[0] == '%' && b[1] == '!' {
+			b[0] = 0xEF
+		}
+		junk = append(junk, string(b))
+	}
+	for _, j := range junk {
+		prog := j + "%!PS-Adobe-3.0\n1 2 add"
+		line := runCaseLine(1000, true, prog)
+		class, intp := p.run(1000, true, prog)
+		if intp == nil {
+			continue
+		}
+		o.count("start check: a header behind leading junk")
+		if class != "nops" {
+			o.fail("C11", "input not starting with %! is rejected before anything is executed", line, "nops", class)
+		}
+		if intp.NumOps != 0 || len(intp.Stack) != 0 || !intp.CheckStart {
+			o.fail("C11", "nothing is executed when the start check fails (and the check stays armed)", line, "NumOps 0, empty stack, CheckStart set", fmt.Sprint(intp.NumOps, len(intp.Stack), intp.CheckStart))
+		}
 	}
 	// histories of calls on one interpreter: once passed, the check is not repeated; a failed check stays armed;
 	// an eexec section inside a checked file is not checked
